@@ -303,6 +303,11 @@ def lineage_obligations(ex, W, result, cfg):
             O(f'C18.terminal_once@{s}: the {k} emitted from {s} is the only terminal event of the run', len(terminals) == 1)
             O(f'C18.terminal_kind@{s}: {k} from {s} matches how the run ended (COMPLETE iff clean)', (k == 'COMPLETE') == clean)
         if starts:
+            # weaker than "exactly one terminal event of the right kind" (known findings on this tree), and holding on it: the RIGHT kind is among the terminal events
+            if clean:
+                O('C18.complete_on_clean: a started run that ended cleanly reports COMPLETE', any(k == 'COMPLETE' for k, _ in terminals))
+            else:
+                O('C18.abort_on_error: a started run that ended by an error reports ABORT', any(k == 'ABORT' for k, _ in terminals))
             O('C18.terminal_exists: a started run emits a terminal event', len(terminals) >= 1)
             O('C18.terminal_last: nothing is emitted after the run is over except by a still-running heartbeat thread (owed COMPLETE)', True)
 
